@@ -126,83 +126,111 @@ def compile_py(cases, codec, envkey):
 # ----------------------------------------------------------------------------------------
 # struct members: abstract field <-> raw bytes
 
-def set_field(drv, acc, f):
-    """Write one expected member into the struct; returns None or an error record."""
+def field_write(acc, f):
+    """Request line that writes one expected member into the struct -> (line, None) | (None, error record)."""
     k = f['k']
     loc = acc.locate(f['p'], want_array=(k == 'bytes'))
     if loc is None:
-        return {'p': f['p'], 'err': 'nofield'}
+        return None, {'p': f['p'], 'err': 'nofield'}
     lf, off, count = loc
     ct = lf.ctype
+    raw = None
     if k == 'bool':
         if ct != 'bool':
-            return {'p': f['p'], 'err': 'kind', 'ct': ct}
-        drv.write(off, b'\x01' if f['v'] else b'\x00')
+            return None, {'p': f['p'], 'err': 'kind', 'ct': ct}
+        raw = b'\x01' if f['v'] else b'\x00'
     elif k == 'int':
         if ct not in cdriver.INT_TYPES:
-            return {'p': f['p'], 'err': 'kind', 'ct': ct}
+            return None, {'p': f['p'], 'err': 'kind', 'ct': ct}
         size, signed = cdriver.INT_TYPES[ct]
         try:
             raw = render.big(f['v']).to_bytes(size, 'little', signed=signed)
         except OverflowError:
-            return {'p': f['p'], 'err': 'range', 'ct': ct}
-        drv.write(off, raw)
+            return None, {'p': f['p'], 'err': 'range', 'ct': ct}
     elif k in ('enum', 'choice'):
         if not ct.startswith('enum '):
-            return {'p': f['p'], 'err': 'kind', 'ct': ct}
+            return None, {'p': f['p'], 'err': 'kind', 'ct': ct}
         names = acc.short_names(ct) or []
         hit = [num for short, num, _ in names if short == f['v']]
         if len(hit) != 1:
-            return {'p': f['p'], 'err': 'noenum', 'ct': ct}
-        drv.write(off, hit[0].to_bytes(lf.size, 'little', signed=True))
+            return None, {'p': f['p'], 'err': 'noenum', 'ct': ct}
+        try:
+            raw = hit[0].to_bytes(lf.size, 'little', signed=True)
+        except OverflowError:
+            raw = hit[0].to_bytes(lf.size, 'little', signed=False)
     elif k == 'bytes':
         if ct != 'uint8_t' or len(f['v']) > count:
-            return {'p': f['p'], 'err': 'kind' if ct != 'uint8_t' else 'range', 'ct': ct}
-        if f['v']:
-            drv.write(off, bytes(f['v']))
+            return None, {'p': f['p'], 'err': 'kind' if ct != 'uint8_t' else 'range', 'ct': ct}
+        raw = bytes(f['v'])
     elif k == 'real':
         if ct not in ('float', 'double'):
-            return {'p': f['p'], 'err': 'kind', 'ct': ct}
+            return None, {'p': f['p'], 'err': 'kind', 'ct': ct}
         x = values.real_to_py(f['v'])
         try:
             raw = struct.pack('<f' if ct == 'float' else '<d', x)
         except OverflowError:
-            return {'p': f['p'], 'err': 'range', 'ct': ct}
-        drv.write(off, raw)
+            return None, {'p': f['p'], 'err': 'range', 'ct': ct}
     else:
-        return {'p': f['p'], 'err': 'kind?'}
-    return None
+        return None, {'p': f['p'], 'err': 'kind?'}
+    if not raw:
+        return '', None
+    return 'W %d %s' % (off, raw.hex()), None
 
 
-def get_field(drv, acc, f):
-    """Read the member at the path of expected field f -> observed record (same p, k where possible)."""
+def field_read(acc, f):
+    """-> (request line | None, function from the response to the observed record (same p, k where possible))."""
     k = f['k']
     loc = acc.locate(f['p'], want_array=(k == 'bytes'))
     if loc is None:
-        return {'p': f['p'], 'k': 'missing'}
+        return None, lambda r: {'p': f['p'], 'k': 'missing'}
     lf, off, count = loc
     ct = lf.ctype
+    p = f['p']
     if ct == 'bool':
-        raw = drv.read(off, 1)
-        if raw in (b'\x00', b'\x01'):
-            return {'p': f['p'], 'k': 'bool', 'ct': ct, 'v': raw == b'\x01'}
-        return {'p': f['p'], 'k': 'badbool', 'ct': ct, 'raw': raw[0]}
+        def dec(r):
+            raw = bytes.fromhex(r)
+            if raw in (b'\x00', b'\x01'):
+                return {'p': p, 'k': 'bool', 'ct': ct, 'v': raw == b'\x01'}
+            return {'p': p, 'k': 'badbool', 'ct': ct, 'raw': raw[0]}
+        return 'R %d 1' % off, dec
     if ct in cdriver.INT_TYPES and k == 'bytes':
-        return {'p': f['p'], 'k': 'bytes', 'ct': ct, 'v': list(drv.read(off, count))}
+        if count == 0:
+            return None, lambda r: {'p': p, 'k': 'bytes', 'ct': ct, 'v': []}
+        return 'R %d %d' % (off, count), lambda r: {'p': p, 'k': 'bytes', 'ct': ct, 'v': list(bytes.fromhex(r))}
     if ct in cdriver.INT_TYPES:
         size, signed = cdriver.INT_TYPES[ct]
-        return {'p': f['p'], 'k': 'int', 'ct': ct,
-                'v': render.unbig(int.from_bytes(drv.read(off, size), 'little', signed=signed))}
+        return 'R %d %d' % (off, size), lambda r: {
+            'p': p, 'k': 'int', 'ct': ct, 'v': render.unbig(int.from_bytes(bytes.fromhex(r), 'little', signed=signed))}
     if ct.startswith('enum '):
-        num = int.from_bytes(drv.read(off, lf.size), 'little', signed=True)
         names = acc.short_names(ct) or []
-        hit = [short for short, n, _ in names if n == num]
-        return {'p': f['p'], 'k': k if k in ('enum', 'choice') else 'enum', 'ct': 'enum',
-                'v': hit[0] if len(hit) == 1 else '?', 'n': num}
+
+        def dec(r):
+            num = int.from_bytes(bytes.fromhex(r), 'little', signed=True)
+            hit = [short for short, n, _ in names if n == num]
+            return {'p': p, 'k': k if k in ('enum', 'choice') else 'enum', 'ct': 'enum',
+                    'v': hit[0] if len(hit) == 1 else '?', 'n': num}
+        return 'R %d %d' % (off, lf.size), dec
     if ct in ('float', 'double'):
-        x = struct.unpack('<f' if ct == 'float' else '<d', drv.read(off, lf.size))[0]
-        return {'p': f['p'], 'k': 'real', 'ct': ct, 'v': values.real_from_py(x)}
-    return {'p': f['p'], 'k': 'other', 'ct': ct}
+        return 'R %d %d' % (off, lf.size), lambda r: {
+            'p': p, 'k': 'real', 'ct': ct,
+            'v': values.real_from_py(struct.unpack('<f' if ct == 'float' else '<d', bytes.fromhex(r))[0])}
+    return None, lambda r: {'p': p, 'k': 'other', 'ct': ct}
+
+
+def read_unit(acc, fields):
+    """Request lines that read the members of `fields`, and a function turning the responses into records."""
+    reqs, decs = [], []
+    for f in fields:
+        line, dec = field_read(acc, f)
+        reqs.append(line)
+        decs.append(dec)
+
+    def parse(resps):
+        out, it = [], iter(resps)
+        for line, dec in zip(reqs, decs):
+            out.append(dec(next(it) if line is not None else None))
+        return out
+    return [r for r in reqs if r is not None], parse
 
 
 # ----------------------------------------------------------------------------------------
@@ -265,20 +293,35 @@ def crash_event(op, vi, exc, data=None, size=None):
     return ev
 
 
+def parse_e(resp):
+    r = resp.split()
+    if r[1] == 'skipped':
+        return None
+    return int(r[1]), (list(bytes.fromhex(r[2])) if len(r) > 2 else [])
+
+
 def run_case(c, spec, spec2, drv, acc, codec, seed, adv_limit):
+    """Build the independent request units of one case, run them, turn the responses into records."""
     env, top = c['env'], c['env']['types'][c['top']]
     name = c['map'][c['top']]
     ti = acc.index
-    obs, crashes, encodings = [], [], []
-    total = drv.select(ti)     # sizeof the struct
+    obs, encodings = [], []
+    units, handlers = [], []      # handlers[u](responses | None)
+    meta = []                     # (op, vi, input) per unit, for crash events
+
+    def add(unit, handler, op, vi, data=None):
+        units.append(unit)
+        handlers.append(handler)
+        meta.append((op, vi, data))
+
     for vi, v in enumerate(c['vals'], 1):
         rec = {'vi': vi}
+        obs.append(rec)
         fields = c['cs'][vi - 1]
         try:
             pv = values.to_py(env, top, v, False)
         except Exception as e:  # machinery
             rec['machinery'] = repr(e)
-            obs.append(rec)
             continue
         o = guarded(lambda: spec.encode(name, pv))
         if o['st'] == 'ok':
@@ -286,82 +329,68 @@ def run_case(c, spec, spec2, drv, acc, codec, seed, adv_limit):
             o['b'] = list(py)
         rec['py'] = o
         if o['st'] != 'ok':
-            obs.append(rec)
             continue
         n = len(py)
         encodings.append(py)
-        # --- encode: struct image built from the expected members, every destination size
-        try:
-            drv.ensure(ti)
-            drv.fill(0xA5)
-            errs = [e for e in (set_field(drv, acc, f) for f in fields) if e]
-            rec['set'] = errs
-        except (cdriver.Crash, cdriver.Hang) as e:
-            crashes.append(crash_event('S', vi, e))
-            errs = [{'p': '', 'err': 'crash'}]
-            rec['set'] = errs
+        # --- encode: struct image built from the expected members, every destination size 0..n+1
+        writes, errs = [], []
+        for f in fields:
+            line, err = field_write(acc, f)
+            if err:
+                errs.append(err)
+            elif line:
+                writes.append(line)
+        rec['set'] = errs
         if not errs:
-            rets, b0, b1 = [], [], []
-            size = 0
-            try:
-                for size in range(0, n + 2):
-                    drv.ensure(ti)
-                    ret, b = drv.encode(size)
-                    rets.append(ret)
-                    if size == n:
-                        b0 = list(b)
-                    elif size == n + 1:
-                        b1 = list(b)
-                ret, b = drv.encode(n + BIG)
-                rec['enc'] = {'rets': rets, 'b': b0, 'b1': b1, 'big': {'ret': ret, 'b': list(b)}}
-            except (cdriver.Crash, cdriver.Hang) as e:
-                crashes.append(crash_event('E', vi, e, size=size))
-                rec['enc'] = {'crashed': True}
-        # --- decode the Python bytes into a poisoned struct, read the expected members back
-        try:
-            drv.ensure(ti)
-            drv.fill(0xA5)
-            ret = drv.decode(py)
-            rec['dec'] = {'ret': ret, 'f': [get_field(drv, acc, f) for f in fields] if ret >= 0 else []}
-            if ret >= 0:
-                r2, b2 = drv.encode(n + BIG)
-                rec['re'] = {'ret': r2, 'b': list(b2)}
-        except (cdriver.Crash, cdriver.Hang) as e:
-            crashes.append(crash_event('D', vi, e, data=py))
-            rec['dec'] = {'crashed': True}
-        obs.append(rec)
+            unit = ['F a5'] + writes + ['E %d' % s for s in range(0, n + 2)] + ['E %d' % (n + BIG)]
 
-    # --- adversarial inputs
+            def h_enc(resps, rec=rec, n=n, nw=len(writes)):
+                if resps is None:
+                    rec['enc'] = {'crashed': True}
+                    return
+                es = [parse_e(r) for r in resps[1 + nw:]]
+                rec['enc'] = {'rets': [e[0] for e in es[:n + 2]], 'b': es[n][1], 'b1': es[n + 1][1],
+                              'big': {'ret': es[n + 2][0], 'b': es[n + 2][1]}}
+            add(unit, h_enc, 'E', vi)
+        # --- decode the python bytes into a 0xA5-filled struct, read the expected members back, re-encode
+        rreqs, rparse = read_unit(acc, fields)
+        unit = ['F a5', 'D ' + py.hex()] + rreqs + ['C %d' % (n + BIG)]
+
+        def h_dec(resps, rec=rec, rparse=rparse, nr=len(rreqs)):
+            if resps is None:
+                rec['dec'] = {'crashed': True}
+                return
+            ret = int(resps[1].split()[1])
+            rec['dec'] = {'ret': ret, 'f': rparse(resps[2:2 + nr]) if ret >= 0 else []}
+            e = parse_e(resps[2 + nr])
+            if e is not None:
+                rec['re'] = {'ret': e[0], 'b': e[1]}
+        add(unit, h_dec, 'D', vi, py)
+
+    # --- adversarial inputs (one request each; the program does decode / encode / decode / encode itself)
     rng = random.Random(seed ^ int(hashlib.sha1(c['cid'].encode()).hexdigest()[:8], 16))
     ins = mutations(rng, encodings[:3] + encodings[-1:], adv_limit) if adv_limit else []
     adv = {'n': len(ins), 'rejected': 0, 'accepted': [], 'accepted_more': 0}
     for data in ins:
-        try:
-            drv.ensure(ti)
-            drv.fill(0x00)
-            d1 = drv.decode(data)
+        def h_adv(resps, data=data):
+            if resps is None:
+                return
+            r = resps[0].split()
+            d1 = int(r[1])
             if d1 < 0:
                 adv['rejected'] += 1
-                continue
-            i1 = hashlib.sha1(drv.read(0, total)).hexdigest()
-            cap = 2 * len(data) + BIG
-            e1, b1 = drv.encode(cap)
-            a = {'in': list(data), 'd1': d1, 'e1': e1, 'b1': list(b1), 'i1': i1, 'd2': -1, 'i2': '', 'e2': -1, 'b2': []}
-            if e1 >= 0:
-                drv.fill(0x00)
-                a['d2'] = drv.decode(b1)
-                a['i2'] = hashlib.sha1(drv.read(0, total)).hexdigest()
-                if a['d2'] >= 0:
-                    a['e2'], b2 = drv.encode(cap)
-                    a['b2'] = list(b2)
-            if len(adv['accepted']) < 40:
+                return
+            a = {'in': list(data), 'd1': d1, 'i1': r[2], 'e1': int(r[3]), 'b1': [] if r[4] == '-' else list(bytes.fromhex(r[4])),
+                 'd2': -1, 'i2': '', 'e2': -1, 'b2': []}
+            if len(r) > 5:
+                a['d2'], a['i2'] = int(r[5]), r[6]
+            if len(r) > 7:
+                a['e2'], a['b2'] = int(r[7]), ([] if r[8] == '-' else list(bytes.fromhex(r[8])))
+            if len(adv['accepted']) < 40 or not adv_ok(a):
                 adv['accepted'].append(a)
-            elif adv_ok(a):
-                adv['accepted_more'] += 1
             else:
-                adv['accepted'].append(a)
-        except (cdriver.Crash, cdriver.Hang) as e:
-            crashes.append(crash_event('A', 0, e, data=data))
+                adv['accepted_more'] += 1
+        add(['X %d %s' % (2 * len(data) + BIG, data.hex())], h_adv, 'A', 0, data)
 
     # --- version-2 bytes into the version-1 decoder
     pairs = []
@@ -369,21 +398,32 @@ def run_case(c, spec, spec2, drv, acc, codec, seed, adv_limit):
         env2, top2 = c['env2'], c['env2']['types'][c['top']]
         for vi, v2 in enumerate(c['vals2'], 1):
             rec = {'vi': vi}
+            pairs.append(rec)
             o = guarded(lambda: spec2.encode(name, values.to_py(env2, top2, v2, False)))
             if o['st'] == 'ok':
                 py2 = bytes(o.pop('r'))
                 o['b'] = list(py2)
             rec['py'] = o
-            if o['st'] == 'ok':
-                try:
-                    drv.ensure(ti)
-                    drv.fill(0xA5)
-                    ret = drv.decode(py2)
-                    rec['dec'] = {'ret': ret, 'f': [get_field(drv, acc, f) for f in c['cs2'][vi - 1]] if ret >= 0 else []}
-                except (cdriver.Crash, cdriver.Hang) as e:
-                    crashes.append(crash_event('P', vi, e, data=py2))
+            if o['st'] != 'ok':
+                continue
+            rreqs, rparse = read_unit(acc, c['cs2'][vi - 1])
+
+            def h_pair(resps, rec=rec, rparse=rparse):
+                if resps is None:
                     rec['dec'] = {'crashed': True}
-            pairs.append(rec)
+                    return
+                ret = int(resps[1].split()[1])
+                rec['dec'] = {'ret': ret, 'f': rparse(resps[2:]) if ret >= 0 else []}
+            add(['F a5', 'D ' + py2.hex()] + rreqs, h_pair, 'P', vi, py2)
+
+    crashes = []
+
+    def on_crash(u, exc):
+        op, vi, data = meta[u]
+        crashes.append(crash_event(op, vi, exc, data=data))
+    results = drv.run_units(ti, units, on_crash)
+    for u, resps in enumerate(results):
+        handlers[u](resps)
     return obs, adv, pairs, crashes
 
 
@@ -400,6 +440,7 @@ class Ctx(object):
     def __init__(self, codec, work, out, seed, adv_limit, keep):
         self.codec, self.work, self.out, self.seed, self.adv_limit, self.keep = codec, work, out, seed, adv_limit, keep
         self.nbuild = 0
+        self.main_exe = None
 
 
 def emit(ctx, c, extra):
@@ -471,9 +512,12 @@ def process_accept(ctx, cases):
         herr = '%s: %s' % (type(e).__name__, str(e)[:200])
     rc_clang, cerrs = 0, []
     if herr is None:
-        with open(os.path.join(cdir, 'driver.c'), 'w') as f:
-            f.write(cdriver.driver_source('gen.h', hdr, tags))
-        rc_clang, cerrs, _ = cdriver.build_driver(cdir, ['driver.c', 'gen.c'], 'drv')
+        try:
+            with open(os.path.join(cdir, 'table.c'), 'w') as f:
+                f.write(cdriver.table_source('gen.h', hdr, tags))
+            rc_clang, cerrs, _ = cdriver.build_module(cdir, ['table.c', 'gen.c'], 'mod.so')
+        except cdriver.HeaderError as e:
+            herr = str(e)
         cc['clang'] = {'rc': rc_clang, 'errs': [re.sub(r'C\d+x|c\d+x_', '', e)[-160:] for e in cerrs[:3]]}
     texts = {'gen.c': source.split('\n'), 'gen.h': header.split('\n')}
     if rc_gcc != 0 or rc_clang != 0 or herr is not None:
@@ -508,8 +552,8 @@ def process_accept(ctx, cases):
     paired = [c for c in cases if c.get('paired')]
     if paired:
         spec2 = compile_py(cases, codec, 'env2')
-    exe = os.path.join(cdir, 'drv')
-    drv = cdriver.Driver(exe, os.path.join(cdir, 'gen.c'), os.path.join(cdir, 'stderr.log'))
+    drv = cdriver.Driver(ctx.main_exe, os.path.join(cdir, 'mod.so'), os.path.join(cdir, 'gen.c'),
+                         os.path.join(cdir, 'stderr.log'))
     try:
         rows = drv.layout()
         for ti, c in enumerate(cases):
@@ -571,6 +615,7 @@ def main():
     ap.add_argument('--seed', type=int, default=1)
     ap.add_argument('--adv', type=int, default=120)
     ap.add_argument('--keep', action='store_true')
+    ap.add_argument('--main', default='', help='prebuilt generic driver program (built here when absent)')
     a = ap.parse_args()
     k, n = [int(x) for x in a.shard.split('/')]
     cases = []
@@ -590,6 +635,13 @@ def main():
     sys.setrecursionlimit(3000)
     with open(a.out, 'w') as out:
         ctx = Ctx(a.codec, work, out, a.seed, a.adv, a.keep)
+        ctx.main_exe = a.main
+        if not ctx.main_exe or not os.path.exists(ctx.main_exe):
+            ctx.main_exe = os.path.join(work, 'drv_main')
+            rc, txt = cdriver.build_main(os.path.join(work, 'drv_main.c'), ctx.main_exe)
+            if rc != 0:
+                sys.stderr.write('cannot build the generic driver:\n' + txt[-2000:])
+                sys.exit(3)
         for bi, b in enumerate(batches):
             if bi % n != k:
                 continue
